@@ -196,7 +196,7 @@ func (b *Buffer) ServeHTTP(w http.ResponseWriter, req *http.Request) {
 		}
 
 		var reader multibuf.MultiReader
-		if bw.expectBody(outReq) {
+		if bw.expectBody(outReq) && bw.written {
 			rdr, err := writer.Reader()
 			if err != nil {
 				b.log.Error("vulcand/oxy/buffer: failed to read response, err: %v", err)
@@ -267,6 +267,7 @@ type bufferWriter struct {
 	buffer         multibuf.WriterOnce
 	responseWriter http.ResponseWriter
 	hijacked       bool
+	written        bool
 	writeError     error
 	log            utils.Logger
 }
@@ -304,6 +305,9 @@ func (b *bufferWriter) Header() http.Header {
 func (b *bufferWriter) Write(buf []byte) (int, error) {
 	if b.code == 0 {
 		b.code = http.StatusOK
+	}
+	if len(buf) > 0 {
+		b.written = true
 	}
 	length, err := b.buffer.Write(buf)
 	if err != nil {
